@@ -143,7 +143,7 @@ func runC01(c *Ctx) error {
 	// random: ties common, deep reorganisations, reorg-back, orphan chains whose parent arrives later
 	n := c.Pick(600, 6000)
 	for i := 0; i < n; i++ {
-		o := GenOpts{N: 2 + c.Rng.Intn(c.Pick(24, 40)), PUnknown: 0.08, PLate: 0.1, PDup: 0.1, PForbidden: 0.15, ZeroWork: i%4 == 0, Deep: i%2 == 0, Lattice: i%5 == 2}
+		o := GenOpts{N: 2 + c.Rng.Intn(c.Pick(24, 40)), PUnknown: 0.08, PLate: 0.1, PDup: 0.1, PForbidden: 0.15, ZeroWork: i%4 == 0, Deep: i%2 == 0, Lattice: i%5 == 2, ShareMerkle: i%7 == 3}
 		if err := do(GenHistory(c.Rng, o), "random"); err != nil {
 			return err
 		}
